@@ -312,6 +312,18 @@ def r_shutdown_seq(e, R):
                        "or keeps spinning when nobody is left", e.loc(f, wl.test), instance=f"{f.short}: sentinel loop guard table")
             if not bad:
                 R.ok("R-SHUTDOWN-SEQ", f"{f.short}: sentinel loop guard == (sent < to_stop and alive > 0) on {len(tab)} rows", e.loc(f, wl.test))
+        # both counters start at 0 and the sent counter advances by exactly one per posted sentinel (the guard table above is about their
+        # relation, not their origin)
+        if ok and sent_counter:
+            for cn_ in sorted(counters | {sent_counter}):
+                inits = [d for d in e.local_defs(f, cn_) if isinstance(d, ast.Constant)]
+                R.check(bool(inits) and all(d.value == 0 and not isinstance(d.value, bool) for d in inits), "R-SHUTDOWN-SEQ", f"{f.short}: the counter `{cn_}` starts at 0", f.short,
+                        f"{cn_} = {norm(inits[0]) if inits else '?'}", f"the counter `{cn_}` does not start at 0: one sentinel too few is posted (a worker never leaves and the final join "
+                        "blocks) or one too many (it stays in a queue that may be reused)", e.loc(f, f.node))
+            steps_ = [x for x in func_nodes(f) if isinstance(x, ast.AugAssign) and isinstance(x.target, ast.Name) and x.target.id == sent_counter]
+            R.check(bool(steps_) and all(isinstance(x.op, ast.Add) and isinstance(x.value, ast.Constant) and x.value.value == 1 for x in steps_), "R-SHUTDOWN-SEQ",
+                    f"{f.short}: `{sent_counter}` advances by one per posted sentinel", f.short, f"{sent_counter} += 1", "the count of posted sentinels does not advance by one per put",
+                    e.loc(f, f.node))
         R.check(ok, "R-SHUTDOWN-SEQ", f"{f.short}: posts sentinels until as many as released workers were sent", f.short,
                 f"while {norm(wl.test) if wl is not None else '?'}",
                 "the number of sentinels posted is not bounded by / does not reach the number of workers to stop "
